@@ -442,6 +442,9 @@ func (p *parser) parseDecl(cs *ContractSet) error {
 		if err != nil {
 			return err
 		}
+		if old, dup := cs.Preds[name]; dup {
+			return fmt.Errorf("%s: predicate %s is already declared (package %s): predicate names are global", p.file, name, old.Pkg)
+		}
 		cs.Preds[name] = &PredDecl{Name: name, Pkg: p.pkg, Params: params, Body: body}
 		return nil
 	case "spec":
@@ -465,6 +468,9 @@ func (p *parser) parseDecl(cs *ContractSet) error {
 				return err
 			}
 			sd.Axioms = append(sd.Axioms, cl)
+		}
+		if _, dup := cs.Specs[name]; dup {
+			return fmt.Errorf("%s: spec function %s is already declared: spec names are global", p.file, name)
 		}
 		cs.Specs[name] = sd
 		return nil
